@@ -22,8 +22,12 @@ use jj_lib::merge::Merge;
 use jj_lib::object_id::ObjectId as _;
 use jj_lib::op_store::OperationId;
 use jj_lib::op_store::RefTarget;
+use jj_lib::op_store::RemoteRef;
+use jj_lib::op_store::RemoteRefState;
 use jj_lib::operation::Operation;
 use jj_lib::ref_name::RefName;
+use jj_lib::ref_name::RemoteName;
+use jj_lib::ref_name::RemoteRefSymbol;
 use jj_lib::ref_name::WorkspaceName;
 use jj_lib::ref_name::WorkspaceNameBuf;
 use jj_lib::refs::merge_ref_targets;
@@ -615,6 +619,8 @@ struct Snap {
     vis: HashSet<CommitId>,
     bookmarks: BTreeMap<String, Tv>,
     tags: BTreeMap<String, Tv>,
+    /// remote-tracking bookmarks, keyed "name@remote"
+    remotes: BTreeMap<String, Tv>,
     wcs: BTreeMap<String, CommitId>,
 }
 
@@ -635,12 +641,22 @@ fn snap(g: &mut Graph, repo: &ReadonlyRepo, label: &str) -> Result<Snap, Fail> {
         }
         tags.insert(name.as_str().to_owned(), tv(target));
     }
+    let mut remotes = BTreeMap::new();
+    for (symbol, remote_ref) in view.all_remote_bookmarks() {
+        for id in remote_ref.target.as_merge().iter().flatten() {
+            g.ancestors(id)?;
+        }
+        remotes.insert(
+            format!("{}@{}", symbol.name.as_str(), symbol.remote.as_str()),
+            tv(&remote_ref.target),
+        );
+    }
     let mut wcs = BTreeMap::new();
     for (name, id) in view.wc_commit_ids() {
         g.ancestors(id)?;
         wcs.insert(name.as_str().to_owned(), id.clone());
     }
-    Ok(Snap { label: label.to_owned(), vis, bookmarks, tags, wcs })
+    Ok(Snap { label: label.to_owned(), vis, bookmarks, tags, remotes, wcs })
 }
 
 fn show_tv(g: &Graph, t: &Tv) -> String {
@@ -664,6 +680,7 @@ fn snap_json(g: &Graph, s: &Snap) -> Value {
         "visible": g.labels(s.vis.iter()),
         "bookmarks": s.bookmarks.iter().map(|(k, v)| (k.clone(), json!(show_tv(g, v)))).collect::<serde_json::Map<_, _>>(),
         "tags": s.tags.iter().map(|(k, v)| (k.clone(), json!(show_tv(g, v)))).collect::<serde_json::Map<_, _>>(),
+        "remote_bookmarks": s.remotes.iter().map(|(k, v)| (k.clone(), json!(show_tv(g, v)))).collect::<serde_json::Map<_, _>>(),
         "workspaces": s.wcs.iter().map(|(k, v)| (k.clone(), json!(g.label(v)))).collect::<serde_json::Map<_, _>>(),
     })
 }
@@ -972,14 +989,23 @@ fn check_merge(
     }
 
     // --- bookmarks and tags --------------------------------------------------
-    for kind in ["bookmark", "tag"] {
+    // Remote-tracking bookmarks are, like tags, never moved by rewrites.
+    for kind in ["bookmark", "tag", "remote_bookmark"] {
         let get = |s: &Snap, name: &str| -> Tv {
-            let map = if kind == "bookmark" { &s.bookmarks } else { &s.tags };
+            let map = match kind {
+                "bookmark" => &s.bookmarks,
+                "tag" => &s.tags,
+                _ => &s.remotes,
+            };
             map.get(name).cloned().unwrap_or_else(absent_tv)
         };
         let mut names: BTreeSet<String> = BTreeSet::new();
         for s in sides.iter().copied().chain([base, merged]) {
-            let map = if kind == "bookmark" { &s.bookmarks } else { &s.tags };
+            let map = match kind {
+                "bookmark" => &s.bookmarks,
+                "tag" => &s.tags,
+                _ => &s.remotes,
+            };
             names.extend(map.keys().cloned());
         }
         for name in &names {
@@ -999,7 +1025,7 @@ fn check_merge(
             // Tags are never moved by rewrites; bookmarks are, so exact clauses
             // need every named add to be untouched by all sides.
             let adds_untouched = |g: &mut Graph, t: &Tv| -> bool {
-                kind == "tag" || t.iter().step_by(2).flatten().all(|a| !m.affected(g, a))
+                kind != "bookmark" || t.iter().step_by(2).flatten().all(|a| !m.affected(g, a))
             };
             match changed.len() {
                 0 => {
@@ -1063,7 +1089,7 @@ fn check_merge(
                     for v in &vals {
                         allowed.extend(ids_of(v));
                     }
-                    if kind == "tag" || allowed.iter().all(|a| !m.affected(g, a)) {
+                    if kind != "bookmark" || allowed.iter().all(|a| !m.affected(g, a)) {
                         ensure!(
                             ids_of(&res).is_subset(&allowed),
                             &clause(kind, "two_sided_names_foreign_commit"),
@@ -1320,7 +1346,7 @@ fn apply_edits(
     for _ in 0..n_ops {
         let vis = visible_sorted(g, tx);
         let non_root: Vec<CommitId> = vis[1..].to_vec();
-        let kind = rng.weighted(&[5, 4, 1, 3, 5, 2, 4]);
+        let kind = rng.weighted(&[5, 4, 1, 3, 5, 2, 4, 2]);
         match kind {
             0 => {
                 // create
@@ -1385,6 +1411,17 @@ fn apply_edits(
                 let target = gen_ref_target(rng, g, &vis, focus);
                 log.borrow_mut().push(format!("{side}: tag {name} := {}", show_tv(g, &tv(&target))));
                 tx.repo_mut().set_local_tag_target(RefName::new(name), target);
+            }
+            7 => {
+                // a fetch-like update of a remote-tracking bookmark
+                let name = if rng.chance(1, 2) { focus.bookmark } else { *rng.pick(&BOOKMARKS) };
+                let target = gen_ref_target(rng, g, &vis, focus);
+                let state = if rng.bool() { RemoteRefState::Tracked } else { RemoteRefState::New };
+                log.borrow_mut().push(format!("{side}: remote bookmark {name}@origin := {}", show_tv(g, &tv(&target))));
+                tx.repo_mut().set_remote_bookmark(
+                    RemoteRefSymbol { name: RefName::new(name), remote: RemoteName::new("origin") },
+                    RemoteRef { target, state },
+                );
             }
             6 if !non_root.is_empty() => {
                 let name = if rng.chance(1, 2) { focus.workspace } else { *rng.pick(&WORKSPACES) };
@@ -1620,6 +1657,16 @@ pub fn run_c13(ctx: &Ctx) -> i32 {
                         let target = gen_ref_target(rng, &g, &vis, &focus);
                         log.borrow_mut().push(format!("base: bookmark {name} := {}", show_tv(&g, &tv(&target))));
                         tx.repo_mut().set_local_bookmark_target(RefName::new(name), target);
+                    }
+                }
+                for name in BOOKMARKS {
+                    if rng.chance(1, 2) {
+                        let target = RefTarget::normal(pick_commit(rng, &g, &vis, &focus));
+                        log.borrow_mut().push(format!("base: remote bookmark {name}@origin := {}", show_tv(&g, &tv(&target))));
+                        tx.repo_mut().set_remote_bookmark(
+                            RemoteRefSymbol { name: RefName::new(name), remote: RemoteName::new("origin") },
+                            RemoteRef { target, state: RemoteRefState::Tracked },
+                        );
                     }
                 }
                 for name in TAGS {
